@@ -371,6 +371,10 @@ func (w *world) exec(i int, op *Op) stepRec {
 		fmt.Printf("  [%s] op %d %s ...", w.tag, i, op)
 	}
 	before := w.last[op.Obj]
+	stateBefore := ""
+	if isStatusOp(op.Op) {
+		stateBefore = w.stateKey()
+	}
 	if w.spec && !w.modelDead && w.mIter != nil && !w.mIterLoose && isMutator(op.Op) {
 		b := op
 		if op.Body != nil {
@@ -467,6 +471,25 @@ func (w *world) exec(i int, op *Op) stepRec {
 	switch op.Op {
 	case "preventExtensions", "seal", "freeze":
 		w.integrityKeepsValues(op, before, rec.dumps[op.Obj])
+	}
+	if isStatusOp(op.Op) {
+		// model-free: an operation that was rejected without changing anything is rejected again, and again changes
+		// nothing, whenever it is repeated in the same observable state (whatever the issuer)
+		abs := abstractKey(op)
+		oc := outcomeClass(op, rec.raw)
+		stateAfter := w.stateKey()
+		if prev, ok := w.rejected[abs]; ok && prev == stateBefore {
+			st.Inc("repeat_rejected_checks")
+			if oc == "accepted" {
+				w.stop("repeat-rejected-now-accepted", "op %d %s -> %s: the same operation was rejected before in the same observable state", i, op, rec.raw)
+			}
+			if stateAfter != stateBefore {
+				w.stop("repeat-rejected-changed-state", "op %d %s -> %s: the same operation was rejected before in the same observable state without changing anything; now the state changed\n  before: %s\n  after:  %s", i, op, rec.raw, before, rec.dumps[op.Obj])
+			}
+		}
+		if oc == "rejected" && stateAfter == stateBefore {
+			w.rejected[abs] = stateBefore
+		}
 	}
 	if (i+1)%8 == 0 {
 		w.checkpoint()
